@@ -1251,6 +1251,15 @@ def check_project(rep, g, tag, regen=False):
             # (the scripts name the files next to the source directory relative to wherever that directory is)
             a = norm_makefile(mk.replace(os.path.dirname(src) + '/c18_outside/', '<OUTSIDE>/'), src, s.build)
             b = norm_makefile(mk2.replace(os.path.dirname(usrc) + '/c18_outside/', '<OUTSIDE>/'), usrc, ubuild)
+            # a searched directory none of whose entries is distributed is no member of the archive (an archive holds files):
+            # in the unpacked tree that search walks nothing, so the list of watched directories - the bookkeeping of the
+            # regeneration step, C08's subject - may be empty there and its include line absent. Nothing the build reads is lost.
+            gone = [x['dir'] for x in g.sites if x.get('cache') and not os.path.isdir(os.path.join(usrc, x['dir']))]
+            if gone and a != b:
+                rep.count('system:searched directory without distributed content is absent from the archive')
+                drop = ('include .bfg_find_deps', '-include .bfg_find_deps')
+                a = '\n'.join(l for l in a.split('\n') if l.strip() not in drop and l.strip())
+                b = '\n'.join(l for l in b.split('\n') if l.strip() not in drop and l.strip())
             if a != b:
                 la, lb = a.split('\n'), b.split('\n')
                 diff = [(x, y) for x, y in zip(la, lb) if x != y][:3]
